@@ -61,6 +61,45 @@ Tm == <<Inv, Ellps, K("lat_0", "real", "0"), K("lon_0", "real", "0"), K("x_0", "
 Utm == <<Inv, K("south", "flag", "-"), Ellps, K("zone", "natural", "!")>>
 H3(a, b, c) == <<K(a, "real", "0"), K(b, "real", "0"), K(c, "real", "0")>>
 
+\* further rows for operators whose code branches on the parameters: every aspect / form gets its own base, so
+\* that every pool class of every key (degenerate ellipsoids, NaN, huge values ...) meets every branch
+LaeaG == <<Inv, Ellps, K("lat_0", "real", "0"), K("lon_0", "real", "0"), K("x_0", "real", "0"), K("y_0", "real", "0")>>
+LccG  == <<Inv, Ellps, K("lat_1", "real", "0"), K("lat_2", "real", "NaN"), K("lat_0", "real", "NaN"),
+           K("lon_0", "real", "0"), K("k_0", "real", "1"), K("x_0", "real", "0"), K("y_0", "real", "0")>>
+OmercG == <<Inv, K("variant", "flag", "-"), Ellps, K("latc", "real", "0"), K("lonc", "real", "0"),
+            K("alpha", "real", "NaN"), K("gamma_c", "real", "NaN"), K("x_0", "real", "0"), K("y_0", "real", "0"),
+            K("k_0", "real", "1")>>
+Aspects == <<
+  [name |-> "laea", base |-> <<A("lat_0", "90"), A("lon_0", "10")>>, gamut |-> LaeaG],
+  [name |-> "laea", base |-> <<A("lat_0", "-90"), A("lon_0", "10")>>, gamut |-> LaeaG],
+  [name |-> "laea", base |-> <<A("lat_0", "0"), A("lon_0", "10")>>, gamut |-> LaeaG],
+  [name |-> "lcc", base |-> <<A("lat_1", "57"), A("lon_0", "10")>>, gamut |-> LccG],
+  [name |-> "lcc", base |-> <<A("lat_1", "-33"), A("lat_2", "-45"), A("lat_0", "-40"), A("lon_0", "10")>>, gamut |-> LccG],
+  [name |-> "lcc", base |-> <<A("lat_1", "75"), A("lat_2", "85"), A("lat_0", "90"), A("lon_0", "10")>>, gamut |-> LccG],
+  [name |-> "omerc", base |-> <<A("lonc", "46.43722917"), A("latc", "-18.9"), A("alpha", "18.9"), A("k_0", "0.9995"),
+                               A("x_0", "400000"), A("y_0", "800000"), A("ellps", "intl")>>, gamut |-> OmercG],
+  [name |-> "omerc", base |-> <<F("variant"), A("lonc", "20"), A("latc", "40"), A("alpha", "90"), A("gamma_c", "90")>>, gamut |-> OmercG],
+  [name |-> "omerc", base |-> <<A("lonc", "20"), A("latc", "-40"), A("alpha", "-30"), A("gamma_c", "-30")>>, gamut |-> OmercG],
+  [name |-> "tmerc", base |-> <<A("lat_0", "49"), A("lon_0", "-2"), A("k_0", "0.9996012717"), A("x_0", "400000"), A("y_0", "-100000"),
+                               A("ellps", "airy")>>, gamut |-> Tm],
+  [name |-> "merc", base |-> <<A("k_0", "0.9996"), A("lon_0", "9")>>,
+   gamut |-> <<Inv, Ellps, K("lat_0", "real", "0"), K("lon_0", "real", "0"), K("x_0", "real", "0"),
+               K("y_0", "real", "0"), K("k_0", "real", "1"), K("lat_ts", "real", "0")>>],
+  [name |-> "utm", base |-> <<A("zone", "32"), F("south")>>, gamut |-> Utm],
+  [name |-> "molodensky", base |-> <<F("abridged"), A("ellps", "intl"), A("da", "-251"), A("df", "-0.000014192702"), A("dx", "-87"), A("dy", "-96"), A("dz", "-120")>>,
+   gamut |-> <<Inv, K("abridged", "flag", "-"), K("dx", "real", "0"), K("dy", "real", "0"), K("dz", "real", "0"),
+               K("da", "real", "0"), K("df", "real", "0"), Ellps, K("ellps_0", "text", "GRS80"),
+               K("ellps_1", "text", "GRS80")>>],
+  [name |-> "helmert", base |-> <<F("exact"), A("convention", "coordinate_frame"), A("rotation", "1,2,3"), A("translation", "10,20,30"), A("scale", "1.5")>>,
+   gamut |-> <<Inv, K("translation", "series", "0,0,0")>> \o H3("x", "y", "z")
+             \o <<K("velocity", "series", "0,0,0")>> \o H3("dx", "dy", "dz")
+             \o <<K("rotation", "series", "0,0,0")>> \o H3("rx", "ry", "rz")
+             \o <<K("angular_velocity", "series", "0,0,0")>> \o H3("drx", "dry", "drz")
+             \o <<K("convention", "text", ""), K("exact", "flag", "-"), K("scale", "real", "0"), K("s", "real", "0"),
+                  K("scale_trend", "real", "0"), K("ds", "real", "0"), K("t_epoch", "real", "NaN"),
+                  K("t_obs", "real", "NaN")>>]
+>>
+
 Catalogue == <<
   [name |-> "adapt", base |-> <<A("from", "neuf_deg"), A("to", "enuf")>>,
    gamut |-> <<Inv, K("from", "text", "enuf"), K("to", "text", "enuf")>>],
@@ -140,7 +179,7 @@ Catalogue == <<
   [name |-> "latlon", base |-> <<>>, gamut |-> <<>>],
   [name |-> "latlong", base |-> <<>>, gamut |-> <<>>],
   [name |-> "lonlat", base |-> <<>>, gamut |-> <<>>]
->>
+>> \o Aspects
 
 \* the implicit gamut: modifiers every operator understands, and a key no operator knows
 HasKey(g, k) == \E i \in 1..Len(g) : g[i].k = k
@@ -502,7 +541,7 @@ Emit == EmitDef /\ EmitMut /\ EmitCoord /\ EmitFn
 \* model-level sanity: the catalogue is well formed (distinct names, distinct keys per operator,
 \* base arguments name gamut keys, every pool class name is unique within its pool)
 Distinct(seq) == \A i, j \in 1..Len(seq) : i # j => seq[i] # seq[j]
-ASSUME Distinct([i \in 1..Len(Catalogue) |-> Catalogue[i].name])
+ASSUME Distinct([i \in 1..Len(Catalogue) |-> <<Catalogue[i].name, Catalogue[i].base>>])
 ASSUME \A i \in 1..Len(Catalogue) :
           /\ Distinct([j \in 1..Len(Keys(Catalogue[i])) |-> Keys(Catalogue[i])[j].k])
           /\ \A b \in 1..Len(Catalogue[i].base) : HasKey(Catalogue[i].gamut, Catalogue[i].base[b].k)
